@@ -11,7 +11,7 @@ Entry points: run_c08, run_c09, run_c11, run_c12 (tier, seed) and replay(v).
 Bases: the shipped corpora under /repo/examples (birds, AO_*, gen, the 484 representatives, random_large
 with their query files, plus base-derived random queries), seeded S3 bases, generated literal bases of
 10-25 atoms / 10-30 conditionals.  Sizes per property and tier: SIZES.  Measured on 16 cores (seed 1,
-CPU seconds in brackets): quick c08 63 s [710], c09 109 s [1540], c11 112 s [1620], c12 74 s [1050];
+CPU seconds in brackets): quick c08 63 s [780], c09 ~115 s [1750], c11 ~110 s [1730], c12 ~75 s [1130];
 thorough c08 13 min [8900], c09 15-19 min [14400], c11 15-24 min [14000], c12 16-19 min [15400]
 (the longer wall times were taken while other jobs shared the machine).  Largest corpus bases:
 randomTest_100_100 / 120_120 under every operator with total_timeout 150 s and a hard wall limit of
@@ -505,7 +505,7 @@ SIZES = {
         ),
     },
     "c09": {
-        "quick": dict(fixed=26, n484=5, rl=[(6, 6, 1), (10, 10, 1), (14, 14, 1)], s3=30, s3q=0, gen=4, gq=0),
+        "quick": dict(fixed=26, n484=5, rl=[(6, 6, 1), (10, 10, 1), (14, 14, 1)], s3=24, s3q=0, gen=4, gq=0),
         "thorough": dict(n484=100, rl=[(a, a, 2) for a in (6, 8, 10, 12, 14, 16, 18, 20)] + [(30, 30, 1), (40, 40, 1)], s3=600, s3q=0, gen=50, gq=0),
     },
     "c11": {
